@@ -1161,7 +1161,7 @@ def instant_now(ctx):
     return Agg('Instant', {0: Int(t, 64, False)})
 
 
-@contract(r'^<std::time::Instant as (?:std::ops::)?Add<(?:std::time::)?Duration>>::add$')
+@contract(r'^<(?:std::time::|tokio::time::)?Instant as (?:std::ops::)?Add<(?:std::time::)?Duration>>::add$')
 def instant_add(ctx):
     a, d = ctx.args
     dv = d.fields[0] if isinstance(d, Agg) and 0 in d.fields else None
@@ -1170,12 +1170,14 @@ def instant_add(ctx):
     return NotImplemented
 
 
-@contract(r'^<std::time::Instant as PartialOrd>::lt$')
+@contract(r'^<(?:std::time::|tokio::time::)?Instant as PartialOrd>::(lt|le|gt|ge)$|^<(?:std::time::|tokio::time::)?Instant as PartialEq>::(eq|ne)$')
 def instant_lt(ctx):
     a = ctx.ex.deref(ctx.st, ctx.args[0])
     b = ctx.ex.deref(ctx.st, ctx.args[1])
     if isinstance(a, Agg) and isinstance(b, Agg) and a.name == 'Instant' and b.name == 'Instant':
-        return Bool(simp(z3.ULT(a.fields[0].t, b.fields[0].t)))
+        x, y = a.fields[0].t, b.fields[0].t
+        op = ctx.callee.rsplit('::', 1)[1]
+        return Bool(simp({'lt': z3.ULT(x, y), 'le': z3.ULE(x, y), 'gt': z3.UGT(x, y), 'ge': z3.UGE(x, y), 'eq': x == y, 'ne': x != y}[op]))
     return NotImplemented
 
 
@@ -1196,6 +1198,9 @@ def map_lookup(ex, st, m, key, val_ty, hint='m'):
         chain.append((same, p, v))
     if hit is not None and not chain:
         return hit[0], hit[1], m
+    if hit is None and getattr(m, 'closed', False):
+        # a map that started empty: no entry is about this key (unless an aliasing one in `chain` is) -> absent
+        hit = (z3.BoolVal(False), None)
     if hit is None:
         p = z3.Bool(fresh_name(hint + '_has'))
         fac = getattr(ex, 'map_value_factory', None)
@@ -1455,6 +1460,19 @@ def vecdeque_push_back(ctx):
     if isinstance(v, SeqV) and v.items is not None:
         ex.store(st, loc[0], loc[1], SeqV.from_items(v.items + [ctx.args[1]], v.elem_ty, v.kind))
         return UNIT
+    return NotImplemented
+
+
+@contract(r'^VecDeque::<.*>::(front|back)$|^LinkedList::<.*>::(front|back)$')
+def seq_front_back(ctx):
+    """front() / back() of an explicit deque or list: a reference to the first / last element, None when empty"""
+    ex, st = ctx.ex, ctx.st
+    v, loc = seq_loc(ex, st, ctx.args[0])
+    if isinstance(v, SeqV) and v.items is not None and loc is not None:
+        if not v.items:
+            return mk_option(ex, None)
+        i = 0 if ctx.callee.endswith('front') else len(v.items) - 1
+        return mk_option(ex, Ref(loc[0], loc[1] + (('i', BV(i, 64)),), False))
     return NotImplemented
 
 
